@@ -53,3 +53,58 @@ Proof. vm_compute. reflexivity. Qed.
 Theorem converges_after_foreign_status_write_fixed :
   run_stuck true = ([(1, 1, kind_code Done)], [(1, 1)], 0, 3).
 Proof. vm_compute. reflexivity. Qed.
+
+(* Defect D15, fixed by 1583841 (commit_one_stale is the code before that fix). round_with / settle_with /
+   advance_with are round_gen / settle_gen / advance_gen with the status commit as a parameter: *)
+Lemma round_with_gen : forall fixed efb cf e s, round_with (commit_status_gen fixed efb) cf e s = round_gen fixed efb cf e s.
+Proof. reflexivity. Qed.
+Lemma settle_with_gen : forall fixed efb fuel cf e s, settle_with (commit_status_gen fixed efb) fuel cf e s = settle_gen fixed efb fuel cf e s.
+Proof.
+  intros fixed efb fuel. induction fuel as [|f IH]; intros cf e s; cbn [settle_with settle_gen]; [reflexivity|].
+  destruct (trigger_ready cf e s); [|reflexivity]. rewrite round_with_gen. destruct (round_gen fixed efb cf e s) as [e' s']. apply IH.
+Qed.
+Lemma advance_with_gen : forall fixed efb fuel sfuel cf e s until,
+  advance_with (commit_status_gen fixed efb) fuel sfuel cf e s until = advance_gen fixed efb fuel sfuel cf e s until.
+Proof.
+  intros fixed efb fuel sfuel. induction fuel as [|f IH]; intros cf e s until; cbn [advance_with advance_gen]; [reflexivity|].
+  destruct (next_event cf e s until) as [t|]; [|reflexivity]. rewrite settle_with_gen.
+  destruct (settle_gen fixed efb sfuel cf (set_now e (N.max t (e_now e))) s) as [e' s']. apply IH.
+Qed.
+
+(* When the status commit of a FAILED retry falls back to the current object (its revision was changed by
+   the status write of another reconciler, here `statx`, which changes o_aux), the code before the fix
+   queued the next retry with the stale reconciled object at the new revision. The next, successful retry
+   then did CompareAndSwap(retry revision, stale object + Done): it matched and wrote the stale object
+   back, reverting the other writer's data.
+   History: fail 1 0, fail 1 1, put 1 (attempt 0 fails), statx 1 (o_aux 0 -> 1), sleep 100 (attempt 1 at
+   t=20 fails and commits through the fallback; attempt 2 at t=60 succeeds). *)
+Definition run_d15 (stale : bool) :=
+  let stl := if stale then settle_stale else settle in
+  let adv := if stale then advance_stale else advance in
+  let e0 := add_fault (add_fault (env0 stuck_cf) 1 0) 1 1 in
+  let (e, s) := stl 50%nat stuck_cf e0 (rstate0 stuck_cf) in
+  let (e, s) := stl 50%nat stuck_cf (do_write e 0 1) s in
+  let e3 := do_write e 4 1 in
+  let (e, s) := stl 50%nat stuck_cf e3 s in
+  (* after the failed attempt 1 and its status commit through the fallback *)
+  let (e4, s4) := adv 100%nat 50%nat stuck_cf e s 25 in
+  let (e5, s5) := adv 100%nat 50%nat stuck_cf e4 s4 100 in
+  (live_objs_aux (e_tab e3),
+   (* the queued retry: aux of its object and its revision; the table: aux and revision of key 1 *)
+   (map (fun it => (o_aux (ri_obj it), ri_rev it)) (q_items (k_ret s4)),
+    match t_live (e_tab e4) 1 with Some (o, r) => Some (o_aux o, r) | None => None end),
+   live_objs_aux (e_tab e5), N.of_nat (length (e_calls e5))).
+
+(* before the fix: the stat write had set aux = 1; the retry queued at the fallback carries aux 0 for the
+   revision at which the table holds aux 1 (the invariant StatusOnly.J1 "revision identifies the version"
+   is broken exactly there); the final table has aux 0: the other writer's data is lost *)
+Theorem stale_retry_clobbers_refuted :
+  exists written final,
+    run_d15 true = ([(1, 1, kind_code Error, written)], ([(0, 4)], Some (written, 4)), [(1, 1, kind_code Done, final)], 3) /\
+    final <> written.
+Proof. exists 1, 0. split; [vm_compute; reflexivity|discriminate]. Qed.
+
+(* the code as it is: the retry is queued with the object just written, the other writer's data survives *)
+Theorem stale_retry_fixed :
+  run_d15 false = ([(1, 1, kind_code Error, 1)], ([(1, 4)], Some (1, 4)), [(1, 1, kind_code Done, 1)], 3).
+Proof. vm_compute. reflexivity. Qed.
